@@ -125,4 +125,25 @@ def P_C19_conc (clients : List (List (Bool × List Reply))) : Verdict :=
   if (List.range clients.length).all fun i => clientAllSuccess i (clients[i]?.getD []) then none
   else some "concurrent-canonical-client-failed"
 
+def posOfStep : Step → Nat
+  | .t01 => 1 | .t02 => 2 | .t03 => 3 | .t04 => 4 | .t05 => 5 | .t06 => 6 | .t07 => 7
+  | .t08 => 8 | .t09 => 9 | .t10 => 10 | .t11 => 11 | .fin => 12
+
+/-- one round of a same-step race: the SAME canonical step of ONE client id sent on `n`
+    connections at once, for the steps in order.  A step is atomic, so the outcomes must be
+    those of SOME sequential order of the n requests: for `Test01`..`Test10` exactly one
+    success reply and `ClientIdError` for all the others (the step was consumed); for `End`
+    (which leaves the client at `End`) every request may succeed. -/
+def P_C19_race (n : Nat) (round : List (Nat × List (Bool × List Reply))) : Verdict :=
+  firstSome (round.map fun (pos, outs) =>
+    let succ := successRepliesAt pos "@cid0"
+    let nSucc := (outs.filter fun o => !o.1 && replyListEq o.2 succ).length
+    let nIdErr := (outs.filter fun o => !o.1 && replyListEq o.2 [clientIdError]).length
+    if outs.length != n then some "race-observation-incomplete"
+    else if pos == 12 then
+      if nSucc + nIdErr == n && nSucc ≥ 1 then none else some "race-outcome-not-sequential"
+    else if nSucc > 1 then some "step-succeeded-twice"
+    else if nSucc == 1 && nIdErr + 1 == n then none
+    else some "race-outcome-not-sequential")
+
 end VV
